@@ -79,7 +79,7 @@ Qed.
 Lemma parse_options_step f code r acc :
   code <> 0 -> code <> 255 ->
   parse_options (S f) (code :: r) acc =
-  (do '(len, r1) <- get_u8 r ; do '(v, r2) <- get_bytes len r1 ; parse_options f r2 (opt_extend acc code v)).
+  (do (len, r1) <- get_u8 r ; do (v, r2) <- get_bytes len r1 ; parse_options f r2 (opt_extend acc code v)).
 Proof.
   intros H0 H255. cbn [parse_options].
   destruct (code =? 0) eqn:E0; [lia|]. destruct (code =? 255) eqn:E1; [lia|]. reflexivity.
